@@ -274,3 +274,35 @@ def local_by_name(fn, name):
 
 def describe_table(rows):
     return [(show(e)[:120], fmt_conds(c)[:300]) for _, e, c in rows]
+
+
+# ---- structural identification of mutable locals (rules must not depend on variable names) --------
+def find_locals(prog, fn, *def_preds):
+    """locals (user variables or temporaries with several definitions) such that every predicate in
+    def_preds is satisfied by at least one of the local's definitions. A predicate receives
+    (expr, local_index)."""
+    from .expr import defs
+    e = ex(prog, fn)
+    out = []
+    for l in range(len(fn.locals)):
+        ds = defs(fn).whole[l]
+        if len(ds) < max(1, len(def_preds)):
+            continue
+        xs = [e.def_expr(d) for d in ds]
+        if all(any(p(x, l) for x in xs) for p in def_preds):
+            out.append(l)
+    return out
+
+
+def is_var(l):
+    """pattern: the multi-definition local with index l"""
+    return lambda e: isinstance(e, tuple) and e[0] == 'var' and e[2] == l
+
+
+def counter_local(prog, fn, init=0, step=1, op='Add'):
+    """locals defined as `init` and as `self <op> step` (loop counters / accumulators)"""
+    def p_init(x, l):
+        return const_val(x) == init
+    def p_step(x, l):
+        return isinstance(x, tuple) and x[0] == 'bin' and x[1] == op and ((is_var(l)(x[2]) and const_val(x[3]) == step) or (op in ('Add', 'Mul') and is_var(l)(x[3]) and const_val(x[2]) == step))
+    return find_locals(prog, fn, p_init, p_step)
